@@ -394,9 +394,10 @@ struct Script {
     text: &'static str,
     /// signal trapped (name), marker printed by the trap
     sig: &'static str,
-    /// alternative sequence of non-trap markers that is also correct (a `wait` interrupted by
-    /// the signal returns 384+signal and the job is collected by the next wait)
-    alt: Option<&'static [&'static str]>,
+    /// alternative sequences of non-trap markers that are also correct (a `wait` interrupted by
+    /// the signal returns 384+signal and the job is collected by the next wait; with two
+    /// deliveries both waits may be interrupted)
+    alt: Option<&'static [&'static [&'static str]]>,
 }
 
 const SCRIPTS: &[Script] = &[
@@ -412,12 +413,12 @@ const SCRIPTS: &[Script] = &[
     Script {
         text: "trap 'p T' USR1\np a\n{ s 0; s 3; } &\nwait $!\np w\nwait $!\np e",
         sig: "USR1",
-        alt: Some(&["a:0", "w:508", "e:3"]),
+        alt: Some(&[&["a:0", "w:508", "e:3"], &["a:0", "w:508", "e:508"], &["a:0", "w:3", "e:508"]]),
     },
     Script {
         text: "trap 'p T' TERM\n{ s 0; s 2; } & { s 0; s 4; } &\nwait\np w\nwait\np e",
         sig: "TERM",
-        alt: Some(&["w:399", "e:0"]),
+        alt: Some(&[&["w:399", "e:0"], &["w:399", "e:399"], &["w:0", "e:399"]]),
     },
 ];
 
@@ -501,7 +502,7 @@ fn part_b(ctx: &Ctx, tier: Tier, samples: &Samples) -> (u64, u64, u64) {
                 continue;
             }
             // every $? otherwise unchanged: the non-trap markers equal the baseline
-            let alt_ok = sc.alt.is_some_and(|a| rest.iter().map(|s| s.as_str()).eq(a.iter().copied()));
+            let alt_ok = sc.alt.is_some_and(|alts| alts.iter().any(|a| rest.iter().map(|s| s.as_str()).eq(a.iter().copied())));
             if alt_ok {
                 interrupted_waits.fetch_add(1, Relaxed);
             }
